@@ -341,7 +341,7 @@ Print Assumptions c13_held_load_join_id_refuted.
 (* every request other than a note is answered (the queue of the paused topic, 192 slots, not overrun) *)
 Definition c13_held_load_answered_statement : Prop :=
   forall ti join ms rel m, (length ms <= HeldLoad.client_cap)%nat -> In m (join :: ms) -> HeldLoad.is_note m = false ->
-    HeldLoad.answered (HeldLoad.run_held true ti join ms rel) m = true.
+    HeldLoad.pub_has_id m = true -> HeldLoad.answered (HeldLoad.run_held true ti join ms rel) m = true.
 
 (* REFUTED by the faithful model (and on the real server, see findings/C13.md): a P2P topic is deleted by a
    {del what=topic} while it is being loaded; the load succeeds; topicInit returns at `if t.isDeleted()` and the
@@ -353,13 +353,22 @@ Proof.
   - cbn. repeat constructor.
   - now left.
   - reflexivity.
+  - reflexivity.
 Qed.
 Print Assumptions c13_held_load_answered_refuted.
 
-(* ... and that is the only way to lose an answer *)
+(* a second way: the OWNER's {del what=topic} for a group topic that is being loaded is queued in t.meta (t.owner is
+   not known yet); after the load Topic.replyDelTopic finds the owner, logs "SHOULD NOT HAPPEN" and returns without a reply *)
+Theorem c13_held_load_owner_del_unanswered :
+  HeldLoad.answered (HeldLoad.run_held true HeldLoad.ti_grp_topic HeldLoad.w_join [HeldLoad.w_del_owner] HeldLoad.RelOk) HeldLoad.w_del_owner = false.
+Proof. exact HeldLoadProofs.owner_del_lost. Qed.
+Print Assumptions c13_held_load_owner_del_unanswered.
+
+(* ... and these are the only ways to lose an answer: [lost_trigger] = the load SUCCEEDS after a {del what=topic}
+   arrived for a P2P topic, or after the owner's {del what=topic} arrived *)
 Theorem c13_held_load_answered_partial :
   forall ti join ms rel m, HeldLoadProofs.lost_trigger ti ms rel = false -> (length ms <= HeldLoad.client_cap)%nat ->
-    In m (join :: ms) -> HeldLoad.is_note m = false ->
+    In m (join :: ms) -> HeldLoad.is_note m = false -> HeldLoad.pub_has_id m = true ->
     HeldLoad.answered (HeldLoad.run_held true ti join ms rel) m = true.
 Proof. exact HeldLoadProofs.run_held_answered. Qed.
 Print Assumptions c13_held_load_answered_partial.
